@@ -11,7 +11,7 @@ STREAMS = {
 PROPS = {
     "C19": {
         "props": ["LachesisVerif.Props.C19"],
-        "streams": ["parents"],
+        "streams": ["parents", "qindex"],
         "claim": "Proof: for every existing list, option list (overlaps, duplicates), number of strategies, strategy behaviour (any in-range "
                  "index) and map iteration order (any permutation of the remaining options): result = existing ++ added, |added| <= "
                  "#strategies, added are offered options not among the existing parents, pairwise distinct, and fewer additions than "
